@@ -1,5 +1,6 @@
 import Gmx.Model.Perp
 import Gmx.Driver.Market
+import Gmx.Model.Liquidity
 -- ENGINE perp PerpE.perpEngine stateful Gmx.Drv.PerpE.PerpDb []
 /-! driver engine `perp` — C07, C08, C09, C10 (positions over the market state).
 
@@ -7,7 +8,9 @@ import Gmx.Driver.Market
 · `perp setpool <sid> <kind> <long> <short>` · `perp tick <sid> <secs>` · `perp dist <sid>`
 · `perp ubor <sid> <6 prices>` · `perp ufund <sid> <6 prices>` · `perp open <sid> <pid> <isLong> <collLong>`
 · `perp inc <sid> <pid> <collateral> <size> <6 prices>` · `perp dec <sid> <pid> <size> <withdraw> <insolvent> <liquidation> <cap> <6 prices>`
-· `perp chk <sid> <pid> <minCollUsd> <forLiq> <6 prices>` (check_liquidatable, read only).
+· `perp chk <sid> <pid> <minCollUsd> <forLiq> <6 prices>` (check_liquidatable, read only)
+· `perp dep <sid> <long> <short> <6 prices>` · `perp wdr <sid> <market tokens> <6 prices>` · `perp pv <sid> <kind> <maximize> <6 prices>`
+  (mkt-liq's deposit / withdraw / pool_value WITH the open interest of the session: pending borrowing fees, capped pnl).
 A failing operation leaves the state unchanged. Every response ends with `| <market digest> | <positions>`. -/
 namespace Gmx.Drv.PerpE
 open Gmx Gmx.Perp Gmx.Drv
@@ -138,6 +141,38 @@ def perpOp (db : PerpDb) (sid : String) (s : PerpSt) (op : String) (args : List 
         | .ok (some r) => perpReply db sid s s!"ok {showReason r}"
         | .error e => perpReply db sid s (showPErr e)
     | _, _, _, _ => (db, "bad-op")
+  | "dep", l :: sh :: prices =>
+    match pNat l, pNat sh, allNat prices >>= parsePrices W with
+    | some l, some sh, some pr =>
+      if l ≥ 2 ^ W ∨ sh ≥ 2 ^ W then (db, "bad-op") else
+      match perpInOf W U s.m s.rc pr with
+      | none => perpReply db sid s "err Fail"
+      | some pin =>
+        match deposit W U s.m ⟨l, sh, pr⟩ pin with
+        | (m', .ok t) =>
+          let r := t.report
+          perpReply db sid { s with m := m' } s!"ok {r.minted} {r.priceImpact} {r.feesL.pool} {r.feesL.receiver} {r.feesS.pool} {r.feesS.receiver}"
+        | (_, .error e) => perpReply db sid s (showMErr e)
+    | _, _, _ => (db, "bad-op")
+  | "wdr", amt :: prices =>
+    match pNat amt, allNat prices >>= parsePrices W with
+    | some amt, some pr =>
+      if amt ≥ 2 ^ W then (db, "bad-op") else
+      match perpInOf W U s.m s.rc pr with
+      | none => perpReply db sid s "err Fail"
+      | some pin =>
+        match withdraw W U s.m ⟨amt, pr⟩ pin with
+        | (m', .ok r) =>
+          perpReply db sid { s with m := m' } s!"ok {r.longOut} {r.shortOut} {r.feesL.pool} {r.feesL.receiver} {r.feesS.pool} {r.feesS.receiver}"
+        | (_, .error e) => perpReply db sid s (showMErr e)
+    | _, _ => (db, "bad-op")
+  | "pv", k :: mx :: prices =>
+    match pNat k >>= pKind, pBool mx, allNat prices >>= parsePrices W with
+    | some kind, some mx, some pr =>
+      match (perpInOf W U s.m s.rc pr).bind (fun pin => poolValue W U s.m pr kind mx pin) with
+      | some v => perpReply db sid s s!"ok {v}"
+      | none => perpReply db sid s "err Fail"
+    | _, _, _ => (db, "bad-op")
   | _, _ => (db, "bad-op")
 
 def perpEngine (db : PerpDb) (args : List String) : PerpDb × String :=
